@@ -1210,6 +1210,43 @@ func rulesHintBodies(cx *Ctx, prop string) []Obligation {
 				stores = append(stores, st{k, s.Val, b, s.Pos()})
 			}
 		}
+		// results[k] written in place: results[k].SetUint64(x), results[k].Set(y), … (gnark pre-allocates the outputs)
+		type inpl struct {
+			k     int
+			call  *ssa.Call
+			name  string
+			block *ssa.BasicBlock
+		}
+		var inplace []inpl
+		for _, b := range hf.Blocks {
+			for _, ins := range b.Instrs {
+				c, ok := ins.(*ssa.Call)
+				if !ok {
+					continue
+				}
+				name, isBig := bigMethod(c)
+				if !isBig || len(c.Common().Args) == 0 {
+					continue
+				}
+				switch name {
+				case "Cmp", "CmpAbs", "Sign", "IsUint64", "IsInt64", "Uint64", "Int64", "BitLen", "String", "Text", "Bytes", "Bit", "Bits", "TrailingZeroBits", "ProbablyPrime", "FillBytes", "Format", "Append":
+					continue
+				}
+				ld, ok := stripCopies(c.Common().Args[0]).(*ssa.UnOp)
+				if !ok || ld.Op != token.MUL {
+					continue
+				}
+				ia, ok := ld.X.(*ssa.IndexAddr)
+				if !ok || ia.X != results {
+					continue
+				}
+				k := -1
+				if kk, ok := constInt(ia.Index); ok {
+					k = int(kk)
+				}
+				inplace = append(inplace, inpl{k, c, name, b})
+			}
+		}
 		var ks []int
 		for k := range demands[hf] {
 			ks = append(ks, k)
@@ -1246,6 +1283,21 @@ func rulesHintBodies(cx *Ctx, prop string) []Obligation {
 				}
 				if failed {
 					break
+				}
+			}
+			for _, w := range inplace {
+				if failed || (w.k != k && w.k != -1) || hb.fi.Refuse[w.block.Index] {
+					continue
+				}
+				n++
+				b, _ := hb.opBound(w.call, w.name, w.block, 0)
+				switch {
+				case b == nil:
+					obs = append(obs, bad(key, desc, fmt.Sprintf("no upper bound could be established for the value written into results[%d] in place here; the gadget demands < %s (%s)", k, boundName(d.bound), d.what), P.Pos(w.call.Pos())))
+					failed = true
+				case b.Cmp(d.bound) >= 0:
+					obs = append(obs, bad(key, desc, fmt.Sprintf("the value written into results[%d] in place here can be as large as %s on this path; the gadget demands < %s (%s)", k, boundName(new(big.Int).Add(b, big.NewInt(1))), boundName(d.bound), d.what), P.Pos(w.call.Pos())))
+					failed = true
 				}
 			}
 			if failed {
